@@ -187,8 +187,30 @@ def generate(rng):
             b = some_block()
             ops.append({"op": "mixin", "what": rng.choice(["pop", "popitem", "clear", "update", "setdefault"]),
                         "level": rng.choice(["file", "block", "cat"]), "b": b, "c": some_cat(b), "key": rng.choice(COLS + CATS)})
-        else:
+        elif r < 0.99:
             ops.append({"op": "bad_assign", "level": rng.choice(["file", "block"]), "b": some_block(), "c": rng.choice(CATS)})
+        else:
+            # re-key an existing element: the object stored under one key is stored under another key (of the same or of
+            # another container) and removed from the old place, as with any mapping
+            level = rng.choice(["block", "cat", "cat", "cat", "col"])
+            b = some_block()
+            c = some_cat(b)
+            op = {"op": "move", "level": level, "b": b, "c": c, "col": some_col(b, c),
+                  "b2": rng.choice(BLOCKS) if rng.random() < 0.5 else some_block(), "c2": rng.choice(CATS), "col2": rng.choice(COLS)}
+            ops.append(op)
+            if level == "block" and b in sk and op["b2"] != b:
+                sk[op["b2"]] = sk.pop(b)
+            elif level == "cat" and b in sk and c in sk[b]:
+                tb = b if rng.random() < 0.6 else op["b2"]
+                op["b2"] = tb
+                if tb in sk and (tb, op["c2"]) != (b, c):
+                    sk[tb][op["c2"]] = sk[b].pop(c)
+            elif level == "col" and b in sk and c in sk[b] and op["col"] in sk[b][c] and op["col2"] != op["col"]:
+                cols = sk[b][c]
+                if op["col2"] in cols:
+                    cols.remove(op["col2"])
+                cols.remove(op["col"])
+                cols.append(op["col2"])
     ops.append({"op": "check_all"})
     return {"cfg": cfg, "ops": ops}
 
@@ -569,6 +591,59 @@ class Sim:
             self.fail("mapping:delete-raised", level="block", got=exc_name(val), msg=str(val)[:200])
         del self.model[b][c]
         self.mutations += 1
+        return "ok"
+
+    def op_move(self, op):
+        """Store an element that is already in the store under another key and delete it from the old place."""
+        level = op["level"]
+        f = self.file
+        if level == "block":
+            b, b2 = op["b"], op["b2"]
+            if b not in self.model or b2 == b:
+                return "skipped"
+            blk = self.get_block(b, "move")
+            st, v = call(f.__setitem__, b2, blk)
+            if st == "exc":
+                self.fail("mapping:set-raised", level="file", what="existing block under another key", got=exc_name(v), msg=str(v)[:200])
+            st, v = call(f.__delitem__, b)
+            if st == "exc":
+                self.fail("mapping:delete-raised", level="file", got=exc_name(v), msg=str(v)[:200])
+            self.model[b2] = self.model.pop(b)
+            self.parsed.discard(b)
+            self.parsed.add(b2)
+        elif level == "cat":
+            b, c, b2, c2 = op["b"], op["c"], op["b2"], op["c2"]
+            if b not in self.model or c not in self.model[b] or b2 not in self.model or (b2, c2) == (b, c):
+                return "skipped"
+            blk, cat = self.get_cat(b, c, "move")
+            blk2 = self.get_block(b2, "move")
+            st, v = call(blk2.__setitem__, c2, cat)
+            if st == "exc":
+                self.fail("mapping:set-raised", level="block", what="existing category under another key", got=exc_name(v), msg=str(v)[:200])
+            st, v = call(blk.__delitem__, c)
+            if st == "exc":
+                self.fail("mapping:delete-raised", level="block", got=exc_name(v), msg=str(v)[:200])
+            table = self.model[b].pop(c)
+            self.model[b2][c2] = table
+        else:
+            b, c, col, col2 = op["b"], op["c"], op["col"], op["col2"]
+            if b not in self.model or c not in self.model[b] or col not in self.model[b][c] or col2 == col:
+                return "skipped"
+            blk, cat = self.get_cat(b, c, "move")
+            st, obj = call(lambda: cat[col])
+            if st == "exc":
+                self.fail("view:column-read-raised", got=exc_name(obj), msg=str(obj)[:200])
+            st, v = call(cat.__setitem__, col2, obj)
+            if st == "exc":
+                self.fail("mapping:set-raised", level="category", what="existing column under another key", got=exc_name(v), msg=str(v)[:200])
+            st, v = call(cat.__delitem__, col)
+            if st == "exc":
+                self.fail("mapping:delete-raised", level="category", got=exc_name(v), msg=str(v)[:200])
+            m = self.model[b][c]
+            cells = m.pop(col)
+            m[col2] = cells  # an existing key keeps its position, a new one goes to the end (dict semantics)
+        self.mutations += 1
+        self.res.stats["op:move-" + level] += 1
         return "ok"
 
     def op_del_block(self, op):
